@@ -1666,12 +1666,15 @@ class Span:
 SEQ_TYPES = ["int | str", "typing.Union[int, str, None]", "list[int] | list[str]", "int | float", "float | str", "datetime.date | str",
              "decimal.Decimal | str", "bool | int | str", "dict[str, int | str]", "list[int | str]", "tuple[int | str, ...]", "Row",
              "typing.Optional[Row]", "int | datetime.date", "float | datetime.timedelta", "str", "int", "list[int]", "Invoice", "list[Invoice]",
-             "Span", "dict[str, int]", "Pt2", "Pt3"]
+             "Span", "dict[str, int]", "Pt2", "Pt3", "datetime.timedelta", "datetime.date", "datetime.datetime", "datetime.time"]
+TEMPORAL_TYPES = ["datetime.timedelta", "datetime.date", "datetime.datetime", "datetime.time", "datetime.date | str", "float | datetime.timedelta"]
+TEMPORAL_TEXTS = ["'2020-01-02'", "'PT1H30M'", "'2021-05-06T07:08:09+00:00'", "'12:30:00+00:00'", "b'PT1H30M'", "b'2020-01-02'"]
 SEQ_INPUTS = ["'abc'", "'5'", "'1.5'", "5", "1.5", "float('inf')", "True", "None", "['a', 'b']", "['1', '2']", "[1, 2]", "{'k': 'abc'}",
               "{'k': '5'}", "('x', '7')", "'2020-01-02'", "datetime.date(2020, 1, 2)", "{'key': 'abc'}", "{'key': '5'}",
               "Row('abc')", "Row('5', ['1'])", "Row(5, ['a'])", "b'5'", "b'abc'", "datetime.timedelta(seconds=3)", "7200",
               "Invoice(100, 20)", "{'net': 100, 'rate': 20}", "[Invoice(1)]", "[{'net': '3'}]",
-              "Span(1)", "Span(1, 5)", "Span(2, 7)", "Pt2(1, 2)", "Pt3(1, 2, 3)", "{'x': '1', 'y': '2'}", "{'x': '1', 'y': '2', 'z': '3'}"]
+              "Span(1)", "Span(1, 5)", "Span(2, 7)", "Pt2(1, 2)", "Pt3(1, 2, 3)", "{'x': '1', 'y': '2'}", "{'x': '1', 'y': '2', 'z': '3'}",
+              "'PT1H30M'", "'2021-05-06T07:08:09+00:00'", "'12:30:00+00:00'", "b'PT1H30M'", "b'2020-01-02'"]
 SEQ_OPS = ["marshal", "unmarshal", "encode", "decode"]
 
 
@@ -1731,6 +1734,14 @@ def check_sequences(ctx, res):
             warm_jobs.append([(rng.choice(SEQ_OPS), rng.choice(grp), rng.choice(SEQ_INPUTS)) for _ in range(14)])
         # and deterministically: everything for the first, then everything for the second
         warm_jobs.append([(op, t, x) for t in grp[:2] for op in ("unmarshal", "marshal") for x in ("Pt2(1, 2)", "Pt3(1, 2, 3)", "{'x': '1', 'y': '2', 'z': '3'}")])
+    # ONE text under two temporal annotations, every ordered pair: what a text is NOT (a duration, for a date routine) may not be
+    # remembered against what it is
+    for x in TEMPORAL_TEXTS:
+        for t1 in TEMPORAL_TYPES:
+            for t2 in TEMPORAL_TYPES:
+                if t1 != t2:
+                    warm_jobs.append([("unmarshal", t1, x), ("unmarshal", t2, x)])
+        warm_jobs.append([(op, t, x) for op in ("unmarshal", "decode") for t in TEMPORAL_TYPES] + [("unmarshal", t, x) for t in reversed(TEMPORAL_TYPES)])
     outs = iso.map_isolated(_seq_child, cold_jobs + warm_jobs, timeout=120.0)
     cold = {}
     for job, o in zip(cold_jobs, outs[:len(cold_jobs)]):
